@@ -44,7 +44,7 @@ type scriptConn struct {
 	// touched: chunks the reader has started on (the end of the stream counts as one more); a
 	// chunk larger than the reader's buffer takes several reads
 	touched int
-	wrote  bytes.Buffer
+	wrote   bytes.Buffer
 	// failBefore[i]: the read that would deliver chunk i first fails once with a timeout, the
 	// way a read deadline expiring in the middle of a frame does; no byte is consumed by it
 	failBefore map[int]bool
